@@ -81,7 +81,7 @@ def oracle_healthy(inp):
 CORRUPTIONS = ['del-data', 'del-meta', 'del-backup-first', 'del-backup-last', 'drop-unique-line', 'change-unique-hash',
                'flip-to-extern', 'move-extern-first', 'empty-manifest', 'garbage-line', 'garbage-file', 'truncate-zstd',
                'stray-root-file', 'stray-group-file', 'hidden-root', 'hidden-group', 'rename-backup', 'temp-backup',
-               'stray-in-backup', 'crlf-lines', 'none']
+               'stray-in-backup', 'crlf-lines', 'none', 'temp-other-date', 'first-gone-with-temp', 'binary-garbage-line']
 
 
 def corrupt(rng, root, kind):
@@ -103,8 +103,17 @@ def corrupt(rng, root, kind):
         os.makedirs(os.path.join(gp, '.2001.01.01-00:00:00'), exist_ok=True); return True
     if kind == 'none':
         return True
+    if kind == 'temp-other-date':
+        # an abandoned temporary of a run made on another day: ignored by listing, the group stays healthy
+        os.makedirs(os.path.join(gp, '.1999.12.31-23:59:59'), exist_ok=True); return True
     if not backups:
         return False
+    if kind == 'first-gone-with-temp':
+        # the group's first backup is gone; a temporary bearing the group's date must not hide that
+        if len(backups) < 2:
+            return False
+        shutil.rmtree(os.path.join(gp, backups[0]))
+        os.makedirs(os.path.join(gp, '.' + g + '-00:00:00'), exist_ok=True); return True
     b = rng.choice(backups)
     bp = os.path.join(gp, b)
     if kind == 'del-data':
@@ -131,6 +140,14 @@ def corrupt(rng, root, kind):
         return False
     if kind == 'empty-manifest':
         store.write_manifest(bp, []); return True
+    if kind == 'binary-garbage-line':
+        # undecodable bytes after the first records: a read error in mid-stream, not the end of the manifest
+        if not recs:
+            return False
+        k = max(1, len(recs) // 2)
+        raw2 = store.format_manifest(recs[:k]).encode('utf-8', 'surrogateescape') + b'\xff\xfe\x80 binary garbage\n' + \
+            store.format_manifest(recs[k:]).encode('utf-8', 'surrogateescape')
+        open(mp, 'wb').write(store.zstd_compress(raw2)); return True
     if kind == 'garbage-line':
         text = store.format_manifest(recs) + 'this is not a manifest line\n'
         open(mp, 'wb').write(store.zstd_compress(text.encode())); return True
